@@ -172,7 +172,7 @@ def c08_event_blackboard(ctx):
     variants = ["ipc", "local"]
     jobs = []
     for i in range(5 if quick else 25):
-        v = [latin(seed, i, k) for k in range(6)]
+        v = [latin(seed, i, k) if i < 5 else rng.randint(0, 4) for k in range(6)]
         jobs.append({"pat": "ev", "variant": variants[i % 2], "src": "directed",
                      "cfg": {"fq": v[0], "lq": v[1], "nq": v[2], "idmax": v[3]},
                      "program": ev_limits(bp, v[0], v[1], v[2], v[3], rng)})
